@@ -25,6 +25,9 @@ use crate::{
 /// Polls without any observable change after which a self-waking task is
 /// treated as quiescent.
 pub const K_NOPROGRESS: usize = 4;
+/// Self-waking polls without any observable change after which a run with no
+/// enabled transition is declared stuck.
+pub const STUCK_AFTER_NOPROGRESS: usize = 300;
 /// Hard cap on outer polls per execution.
 pub const POLL_HORIZON: usize = 20_000;
 /// Hard cap on transitions per execution.
@@ -300,8 +303,15 @@ pub fn execute(
             }
         }
         if opts.is_empty() {
-            tr.anomalies.push(Anomaly::Stuck { self_waking: woken });
-            break;
+            // nothing to release or advance: a task that keeps waking itself gets a long
+            // grace period before it is declared stuck (the K-polls rule is only a
+            // heuristic for *when to offer choices*, never a verdict)
+            if woken && noprog < STUCK_AFTER_NOPROGRESS {
+                opts.push(Opt::Poll);
+            } else {
+                tr.anomalies.push(Anomaly::Stuck { self_waking: woken });
+                break;
+            }
         }
 
         let chosen = if opts.len() >= 2 {
